@@ -4,6 +4,7 @@ package main
 
 import (
 	"fmt"
+	"sync"
 	"go/types"
 	"sort"
 	"strings"
@@ -18,6 +19,8 @@ type sortReg struct {
 	boxSorts  map[string]bool
 	elemSorts map[string]string // heap var name for element arrays -> elem sort
 	boxAxioms []string
+	once      sync.Once
+	cached    string
 }
 
 func newSortReg() *sortReg {
@@ -25,7 +28,9 @@ func newSortReg() *sortReg {
 }
 
 func typeKey(t types.Type) string {
-	return sanitize(types.TypeString(t, func(p *types.Package) string { return p.Name() }))
+	s := types.TypeString(t, func(p *types.Package) string { return p.Name() })
+	s = strings.ReplaceAll(s, "interface{}", "any")
+	return sanitize(s)
 }
 
 // sortOf returns the SMT sort used for values of Go type t.
@@ -151,6 +156,11 @@ func sortSym(s string) string {
 
 // decls renders datatype declarations and box functions.
 func (r *sortReg) declText() string {
+	r.once.Do(func() { r.cached = r.declTextUncached() })
+	return r.cached
+}
+
+func (r *sortReg) declTextUncached() string {
 	var b strings.Builder
 	for _, name := range r.order {
 		st := r.structs[name]
